@@ -41,6 +41,10 @@ DQuatN(P) ==      \* |P|^2 R(P), a quadratic form
 DQuatR(P) == LET s == DQuatS(P)  Nm == DQuatN(P) IN
     <<<<DDiv(Nm[1][1], s), DDiv(Nm[1][2], s), DDiv(Nm[1][3], s)>>, <<DDiv(Nm[2][1], s), DDiv(Nm[2][2], s), DDiv(Nm[2][3], s)>>,
       <<DDiv(Nm[3][1], s), DDiv(Nm[3][2], s), DDiv(Nm[3][3], s)>>>>
+\* quaternion product a o b
+DQProd(a, b) == LET av == <<a[2], a[3], a[4]>>  bv == <<b[2], b[3], b[4]>>  cr == DCross(av, bv) IN
+    <<DSub(DMul(a[1], b[1]), DDot3(av, bv)),
+      DAdd(DAdd(DMul(a[1], bv[1]), DMul(b[1], av[1])), cr[1]), DAdd(DAdd(DMul(a[1], bv[2]), DMul(b[1], av[2])), cr[2]), DAdd(DAdd(DMul(a[1], bv[3]), DMul(b[1], av[3])), cr[3])>>
 DMatVec(A, x) == <<DDot3(A[1], x), DDot3(A[2], x), DDot3(A[3], x)>>
 DMatTCol(A, x, i) == DAdd(DAdd(DMul(A[1][i], x[1]), DMul(A[2][i], x[2])), DMul(A[3][i], x[3]))
 DMatTVec(A, x) == <<DMatTCol(A, x, 1), DMatTCol(A, x, 2), DMatTCol(A, x, 3)>>
